@@ -137,7 +137,7 @@ Definition C15_param_text_len0 := @T_param_text_len0.C15_param_text_len0.
 Module T_tie_dtostre_buf. Import Tie. Local Open Scope bool_scope. Local Open Scope Z_scope.
 Local Open Scope Z_scope.
 Theorem C15_tie_dtostre_buf :
-  Generated.gen_dtostre_buf = Z.of_nat (length (fst (Dtostre.setb (repeat Dtostre.UNINIT 32) 0 0))) /\ Generated.gen_dtostre_buf = 32.
+  Z.of_nat (length (fst (Dtostre.setb (repeat Dtostre.UNINIT 32) 0 0))) = 32 /\ 32 <= Generated.gen_dtostre_buf.
 Proof. exact (@Tie.tie_dtostre_buf). Qed.
 End T_tie_dtostre_buf.
 Definition C15_tie_dtostre_buf := @T_tie_dtostre_buf.C15_tie_dtostre_buf.
